@@ -1348,11 +1348,15 @@ func (m *mergeQuery) Select(t iterator) NodeNavigator {
 			}
 			m.Child.Evaluate(t)
 			root = root.Copy()
+			// The child is evaluated with the input node as context node; the
+			// caller's context node is put back afterwards.
+			ctx := t.Current().Copy()
 			t.Current().MoveTo(root)
 			var list []NodeNavigator
 			for node := m.Child.Select(t); node != nil; node = m.Child.Select(t) {
 				list = append(list, node.Copy())
 			}
+			t.Current().MoveTo(ctx)
 			i := 0
 			m.iterator = func() NodeNavigator {
 				if i >= len(list) {
